@@ -1442,6 +1442,13 @@ class SyncObj(object):
     def __loadDumpFile(self, clearJournal):
         try:
             data = self.__serializer.deserialize()
+            if clearJournal and data[1][1] <= self.__raftLastApplied:
+                # A snapshot that is not ahead of us (the leader sent it again after an outdated
+                # rejection) must not roll this node back or cut entries it has acknowledged.
+                # What we store is this older snapshot now: take a fresh one.
+                self.__forceLogCompaction = True
+                self.__lastSerializedEntry = None
+                return False
             if data[0] is not None:
                 if self.__consumers:
                     selfData = data[0][0]
